@@ -3,6 +3,18 @@
 import json, sys
 
 CLAIMED = {
+    "C10": dict(
+        category="model_checking",
+        technique="explicit-state search of the Comm-B gating machine (28 actions, all orders to depth 4/5 x 4 option sets, each transition on the real reader thread) + exhaustive one-field-at-a-time register sweeps, against a reference gate/validity/Doc 9871 decoder",
+        text="Model GATE explores every order of capability reports (DF11 CA 0/3/4/5/7, DF17), BDS 1,7 advertisements (five subsets, one with a reserved bit) and data replies (2,0; 3,0 x3; valid 4,0; 5,0 right/left turn; 6,0 climb/descent; 5,0 with a status bit clear; 4,0 with a reserved bit) for one aircraft plus a bystander, to depth 4 (5 thorough) under {default,-R,-U,-U -R}; on every transition each MB-derived field group may change only if the reference gate of the pre-state and the register's validity allow it and must then equal the reference decoding; plausible registers must be decoded. The register sweeps run every value field of 4,0/5,0/6,0 over its whole range around three baselines, all 32 status-bit subsets, every reserved bit, BDS 1,7 words, under open and closed gates (and the full GS x TAS product in thorough).",
+        note="Trusted: refmodel/bds.rs (layouts of DESIGN App. B). Admissible sets: floor or truncation for signed scaled values; BDS 4,0 mode/source status unconstrained in the only-if direction; lenient branch when weak/strong validity of an earlier register disagree. Products of more than one field away from a baseline are not covered (except GS x TAS).",
+        design="DESIGN.md §5 C10", engine="E2 explorer + E1 sweep"),
+    "C19": dict(
+        category="model_checking",
+        technique="lock-step product exploration of model ROW under pairs of option sets (10 presentation variants x 3 bases, depth 2/3; default vs -U on the valid-value sub-alphabet, depth 3/4), every step on the real reader thread; recordings as long histories in-process and through the CLI",
+        text="Each base option set {default,-U,-R} is explored over model ROW and on every transition the same action is applied to the same pre-state under each of ten presentation variants (-i x3, -o x2, -c, -u -1, -u 0, -D, -O): the resulting tables must be bit-identical (distance excluded for -O). Default and -U are stepped in lock-step from their own states over the valid-value DF4/5/11/17 alphabet with ticks; callsign, altitude, squawk, position, speed, track, vertical rate, category and surveillance status must agree after every step. The five bundled recordings are run under every pair in-process, and through the release CLI for -c, -M/-l, -D, -o.",
+        note="Trusted: in-process runs apply -O as main() does. -M and -l are only exercised through the CLI seam.",
+        design="DESIGN.md §5 C19", engine="E2 explorer (product)"),
     "C03": dict(
         category="exploration",
         technique="complete-domain enumeration of all 2^24 addresses x 9 formats and all weight<=2 payload families on the real get_icao/reader thread vs an independent CRC-24; explicit-state search of model ROW (3 aircraft, depth 3) for row isolation",
